@@ -276,6 +276,46 @@ fn op_parse(case: &Value) -> Value {
     parse_report(&text, &[])
 }
 
+/// op "seq": {"texts": [hex..], "order": [index..]} — parse texts[order[k]] for k = 0, 1, .. in ONE
+/// process, in that order (indices repeat: every text is parsed several times at different points
+/// of the sequence). Reports the first result of every text and every later parse of the same text
+/// whose result differs from its first one: the parser must be a function of its input, not of
+/// the history of earlier parses in the process.
+fn op_seq(case: &Value) -> Value {
+    let texts: Vec<String> = arr(&case["texts"])
+        .iter()
+        .map(|t| String::from_utf8(unhex(t.as_str().unwrap())).expect("sequence texts are UTF-8"))
+        .collect();
+    let order: Vec<usize> = arr(&case["order"]).iter().map(|x| x.as_u64().unwrap() as usize).collect();
+    let mut first: Vec<Option<Value>> = vec![None; texts.len()];
+    let mut times: Vec<u32> = vec![0; texts.len()];
+    let mut diverge = Vec::new();
+    let mut n_diverge = 0usize;
+    for (pos, &ix) in order.iter().enumerate() {
+        let r = parse_report(&texts[ix], &[]);
+        times[ix] += 1;
+        match &first[ix] {
+            None => first[ix] = Some(r),
+            Some(f) => {
+                if *f != r {
+                    n_diverge += 1;
+                    if diverge.len() < 5 {
+                        diverge.push(json!({"pos": pos, "index": ix, "first": f, "later": r}));
+                    }
+                }
+            }
+        }
+    }
+    json!({
+        "class": "seq",
+        "parses": order.len(),
+        "min_parses_per_text": times.iter().copied().min().unwrap_or(0),
+        "results": first.into_iter().map(|x| x.unwrap_or(Value::Null)).collect::<Vec<_>>(),
+        "n_diverge": n_diverge,
+        "diverge": diverge,
+    })
+}
+
 /// Drive a future on scripted sockets: poll until ready, give up when the script is exhausted.
 fn drive<F: std::future::Future>(fut: F, sh: &Shared) -> Option<F::Output> {
     let mut fut = std::pin::pin!(fut);
@@ -395,6 +435,7 @@ fn main() {
         let case: Value = serde_json::from_str(&line).unwrap();
         let mut res = match case["op"].as_str().unwrap_or("parse") {
             "parse" => op_parse(&case),
+            "seq" => op_seq(&case),
             "build" => std::panic::catch_unwind(|| op_build(&case))
                 .unwrap_or_else(|_| json!({"class": "harness-panic"})),
             o => json!({"error": format!("unknown op {o}")}),
